@@ -264,6 +264,57 @@ fn dawdling_status_client() -> Vec<(String, String)> {
     })
 }
 
+/// An address that used its budget up comes back at every moment of the limiter's cycle - inside the window, between
+/// one and two windows later (the window rolls over and the newcomer is turned away in one step), after two windows
+/// (the bucket may have been cleaned away). Whatever the limiter makes of that address, the next client, from
+/// another address, is served within the bound. Window 1 s, limit 2.
+fn exhausted_address_returns() -> Vec<(String, String)> {
+    run_local(async {
+        let mut tasks = vec![];
+        for proxy in [false, true] {
+            for pause_ms in [300u64, 1_050, 1_400, 1_950, 2_100, 3_300] {
+              tasks.push(tokio::task::spawn_local(async move {
+                let mut v: Vec<(String, String)> = vec![];
+                let cfg = ListenerCfg { proxy: proxy.then_some((true, true)), limiter: Some((1, 2)), timeout: Duration::from_secs(20), ..Default::default() };
+                let running = start_listener(&cfg, NetAdapters::new()).await;
+                let addr = running.addr;
+                let visit = |peer: &'static str, src: &'static str| async move {
+                    let mut c = McClient::connect(addr, Some(peer.parse().unwrap())).await.map_err(|e| e.to_string())?;
+                    if proxy {
+                        c.send_raw(&proxy_v2(src.parse().unwrap(), addr)).await.map_err(|e| e.to_string())?;
+                    }
+                    tokio::time::timeout(BOUND, c.status_exchange(BOUND)).await.map_err(|_| "no reply within the bound".to_string())?.map(|_| ()).map_err(|e| format!("{e:?}"))
+                };
+                for _ in 0..3 {
+                    let _ = visit("127.0.0.2", "198.51.100.71:7100").await;
+                }
+                tokio::time::sleep(Duration::from_millis(pause_ms)).await;
+                let _ = visit("127.0.0.2", "198.51.100.71:7100").await;
+                let mut faults = vec![];
+                for (peer, src) in [("127.0.0.3", "198.51.100.72:7200"), ("127.0.0.4", "198.51.100.73:7300")] {
+                    if let Err(e) = visit(peer, src).await {
+                        faults.push(format!("{peer} / {src}: {e}"));
+                    }
+                }
+                if !faults.is_empty() {
+                    v.push(("stalled=exhausted-address-returns".to_string(), format!("after an address that had used its budget up (limit 2 per second) came back {pause_ms} ms later, clients from other addresses were not served within {BOUND:?} (PROXY protocol {proxy}): {faults:?}{}", if running.done.is_finished() { " - listen() has returned" } else { "" })));
+                }
+                running.stop.cancel();
+                let _ = tokio::time::timeout(Duration::from_millis(500), running.done).await;
+                v
+              }));
+            }
+        }
+        let mut v = vec![];
+        for t in tasks {
+            if let Ok(x) = t.await {
+                v.extend(x);
+            }
+        }
+        v
+    })
+}
+
 /// (elapsed, served, detail)
 fn run_schedule(spec: &Spec) -> (Duration, bool, String, bool) {
     if spec.churn > 0 {
@@ -420,7 +471,11 @@ pub fn run(cli: Cli) -> ! {
             });
         }
     };
+    let returning = std::thread::spawn(exhausted_address_returns);
     par_for(specs.len(), |i| one(&specs[i]));
+    for (k, t) in returning.join().unwrap_or_default() {
+        rep.violation(Violation { key: k, text: t, replay: json!({"exhausted_address_returns": true}), weight: 71 });
+    }
     for (k, t) in dawdling_status_client() {
         rep.violation(Violation { key: k, text: t, replay: json!({"dawdling": true}), weight: 70 });
     }
